@@ -349,12 +349,13 @@ func (s TeeingStore) Merge(other ReadOnlyFactStore) {
 
 // ListPredicates returns a list of predicates.
 func (s TeeingStore) ListPredicates() []ast.PredicateSym {
-	m := make(map[string]ast.PredicateSym)
+	// Keyed by symbol AND arity: q/1 and q/2 are different predicates.
+	m := make(map[ast.PredicateSym]ast.PredicateSym)
 	for _, pred := range s.base.ListPredicates() {
-		m[pred.Symbol] = pred
+		m[pred] = pred
 	}
 	for _, pred := range s.Out.ListPredicates() {
-		m[pred.Symbol] = pred
+		m[pred] = pred
 	}
 	res := make([]ast.PredicateSym, 0, len(m))
 	for _, pred := range m {
